@@ -558,7 +558,7 @@ def containers(u, maxn):
 BOUNDS = {
     # tier: (nkeys, max items for 1-op, max items for 2-op, hypothesis examples per unit, units)
     "quick": dict(nkeys=3, n1=3, n2=0, examples=300, hyp_units=16),
-    "thorough": dict(nkeys=4, n1=4, n2=2, examples=4000, hyp_units=32),
+    "thorough": dict(nkeys=4, n1=4, n2=1, examples=4000, hyp_units=32),
 }
 
 
